@@ -108,6 +108,10 @@ def _cases(tier, seed):
             cs.append({'scen': 'tt_scalar', 's': s})
     for op in ('add', 'mul', 'rmul', 'sub'):
         cs.append({'scen': 'tt_scalar', 's': {'op': op, 'N': [2, 3], 'R': [1, 2, 1], 'dtype': 'complex128', 'skind': 'complex'}})
+    # zero scalars on tensors of every dtype
+    for dt in ('complex128', 'float32', 'complex64'):
+        for op in ('mul', 'rmul', 'add', 'sub', 'rsub'):
+            cs.append({'scen': 'tt_scalar', 's': {'op': op, 'N': [2, 3], 'R': [1, 2, 1], 'dtype': dt, 'skind': 'int', 'ival': 0}})
     # concrete python floats that float32 cannot represent: the scalar must reach the cores in double precision
     for fv in (0.1, 1.0000000596046448, -7.77):
         for op in ('add', 'radd', 'sub', 'rsub', 'mul', 'rmul', 'div'):
